@@ -767,3 +767,25 @@ def gen_c02_case(rng, interp=True):
                     facts.append((p["id"], list(g), lo, hi))
     ops = [("infer", 60)]
     return {"kb": desc, "facts": facts, "n_consts": nc, "ops": ops}
+
+
+# ------------------------------------------------------------------ C09: natural join is evaluated
+
+def run_c09(case):
+    """one connective over predicates. case: {'kb','facts','n_consts','op_fact': (g, lo, hi) | None}
+    upward(), table dump; then (optionally) assert the operator at one join tuple and downward()."""
+    prog = {"kb": case["kb"], "facts": case["facts"], "ops": [("up", case["conn"])]}
+    if case.get("op_fact"):
+        g, lo, hi = case["op_fact"]
+        prog["ops"] += [("fact", case["conn"], g, lo, hi), ("down", case["conn"], None)]
+    rec = run_fol_program(prog)
+    kb = FolKB(case["kb"])
+    o = kb.obj[case["conn"]]
+    rec["meta"]["operand_map"] = [list(m) for m in o.operand_map]
+    rec["meta"]["operand_ids"] = [kb.idof[id(x)] for x in o.operands]
+    rec["meta"]["num_vars"] = o.num_unique_vars
+    rec["meta"]["weights"] = [q(Fr(float(w))) for w in o.neuron.weights.detach().tolist()]
+    rec["meta"]["bias"] = q(Fr(float(o.neuron.bias)))
+    rec["meta"]["alpha"] = q(Fr(float(o.neuron.alpha)))
+    rec["meta"]["kind"] = type(o).__name__.lower()
+    return rec
